@@ -11,13 +11,13 @@ def slurmOps : List (String × (Json → R Json)) := [
     -- `squeueRet ≠ 0`: squeue failed through all retries: `check_statuses` raises ExecutionError, which
     -- `HpcStatusCollector.check_status` lets through — nothing is decided about any batch
     let ret := (int j "squeueRet").toOption.getD 0
-    if ret != 0 then return jerr .execError
-    match parseSqueue text.toList with
+    match (if ret != 0 then .ok [] else parseSqueue text.toList) with
     | .error e => pure (jerr e)
     | .ok pairs =>
-      pure <| jobj [
-        ("statuses", jarr (ids.map fun i => jstr (checkStatus pairs i))),
-        ("complete", jarr (ids.map fun i => jbool (hpcIsComplete pairs i)))]),
+      match ids.mapM (fun i => checkStatusQ (ret == 0) pairs i), ids.mapM (fun i => hpcIsCompleteQ (ret == 0) pairs i) with
+      | .ok sts, .ok cs => pure <| jobj [("statuses", jarr (sts.map jstr)), ("complete", jarr (cs.map jbool))]
+      | .error e, _ => pure (jerr e)
+      | _, .error e => pure (jerr e)),
   ("slurm.submit", fun j => do
     let ret ← int j "ret"
     let out ← str j "stdout"
